@@ -104,6 +104,11 @@ void build_and_destroy(const Case& c, const Findings& f, Census* cen, const vf::
    w.counters["nest_qualified"] = 1;
    w.run(c);
    print_sweep(w, 12);
+#if C19_ASAN
+   // "no operation on a live Lexicon reads or writes memory outside live objects": every accessor of everything built, and
+   // every sequence indexed at, just beyond and far beyond its size (the answers are C14's business; here only ASan/UBSan judge)
+   if (cen) oracle_accessors(w, true);
+#endif
    if (cen && o) *cen = census(w, *o);
    // ~World: modules, units, then the free-standing factories and the Lexicon
 }
